@@ -661,7 +661,13 @@ class DynamicalAnnealer:
 
     def __call__(self, chain):
         iteration = chain.iteration // chain.swap_interval  # - 1 here ?
-        ars = chain.temperature_acceptance[:, -1]
+        # the acceptance ratios of the swap that was just done; read the row
+        # that swap_temperatures stored them to, since the number of rows
+        # returned by temperature_acceptance lags behind after the chain was
+        # cleared at an iteration that is not a multiple of the swap interval
+        ii = (len(chain) - 1)//chain.swap_interval
+        ars = numpy.atleast_1d(
+            chain._temperature_acceptance[ii]['acceptance_ratio'])
         ars[ars > 1] = 1.
         self._S += numpy.array([self._decay(iteration) * (ars[i] - ars[i+1])
                                 for i in range(chain.ntemps - 2)])
